@@ -213,7 +213,7 @@ class Replay:
 
     def run(self, history, check_last_only=True):
         d = ctxrun.fresh_dir("c02")
-        model = dict(mid="base", top="base", config={}, fuzzy_for=[], fuzzy_opt=[])
+        model = dict(mid="base", top="base", config={}, fuzzy_for=[], fuzzy_opt=[], _parent=None)
         st = fresh_context(model, d)
         ok = True
         for i, op in enumerate(history):
@@ -222,7 +222,8 @@ class Replay:
             st = st_box[0]
             if not ok:
                 break
-        canon = (model["mid"], model["top"], tuple(sorted((k, repr(v)) for k, v in model["config"].items())), tuple(model["fuzzy_for"]), tuple(model["fuzzy_opt"]), listing(d), cache_signature(st))
+        canon = (model["mid"], model["top"], tuple(sorted((k, repr(v)) for k, v in model["config"].items())), tuple(model["fuzzy_for"]), tuple(model["fuzzy_opt"]), listing(d), cache_signature(st),
+                 tuple(sorted(model["_parent"][1].items())) if model["_parent"] else None)
         return canon, ok
 
     def step(self, box, model, d, op, hist, check):
@@ -244,6 +245,9 @@ class Replay:
                     st.register(cls_top(op[1]))
                     model["top"] = op[1]
                 elif kind == "new_context":
+                    # the parent stays alive and is never operated on again: whatever is done to the derived context,
+                    # the parent's keys must stay what they are now (a context is not disturbed through its children)
+                    model["_parent"] = (st, dict(keys_of(st)))
                     box[0] = st = st.new_context()
                 elif kind == "fuzzy_for":
                     st.set_context_config({"fuzzy_for": (op[1],)})
@@ -292,6 +296,17 @@ class Replay:
                 bad = [t for t in fk if ck[t] != fk[t]]
                 res.violation(f"stale-key:{self.classify(hist)}", f"after {op} key_for({bad}) = {[ck[t] for t in bad]} but a brand-new context with the same settings gives {[fk[t] for t in bad]}", case)
                 return False
+            par = model.get("_parent")
+            if par is not None:
+                try:
+                    pk_now = dict(keys_of(par[0]))
+                except Exception as e:
+                    res.violation("parent-context:key_for-raised:" + ctxrun.exc_fp(e), f"{type(e).__name__}: {e}"[:300], case)
+                    return False
+                if pk_now != par[1]:
+                    bad = [t for t in par[1] if pk_now.get(t) != par[1][t]]
+                    res.violation(f"parent-context-disturbed:{kind}", f"after {op} on the context derived with new_context(), key_for({bad}) of the PARENT context changed from {[par[1][t] for t in bad]} to {[pk_now.get(t) for t in bad]}", case)
+                    return False
             # key-change relation (on the fresh keys)
             pk = keys_of(fresh_context(before_model, d, empty=True))
             changed = {t for t in fk if fk[t] != pk[t]}
